@@ -279,7 +279,10 @@ def merge_back_oracles(case, w, data, aff, dim, pieces):
                 h_.extensions.append(e_)
                 im_ = nb.Nifti1Image(np.asanyarray(pc.nii_img.dataobj).copy(), A, h_)
                 spaced.append(NiftiWrapper(im_))
+            before_sp = [snap(p_) for p_ in spaced]
             sm = NiftiWrapper.from_sequence(spaced, dim)
+            if [snap(p_) for p_ in spaced] != before_sp:
+                fails['C13'].append('from_sequence of pieces 1.5 steps apart (dim %d) changed an input image / affine / extension' % dim)
             want_col = 1.5 * aff[:3, dim]
             if not np.allclose(sm.nii_img.affine[:3, dim], want_col, atol=1e-3):
                 fails['C03'].append('pieces 1.5 steps apart merged along dim %d: the merged column is %s, expected %s' % (
